@@ -22,6 +22,14 @@ def run(chk):
                       "u/v = first/second returned array), with w = c/periods, c = 2*pi to 1e-6")
     chk.rule("R-FWD", "response_series and AccSignal.response_series forward (record, dt, periods, xi) by role and return the "
                       "three series in callee order")
+    chk.rule("R-NJ-COEF", "each of the eight entries of the propagator matrices A, B returned by compute_a_and_b equals the Nigam-Jennings "
+                          "closed form as a rational function of xi, w, dt and E = exp(-xi w dt), Q = sqrt(1-xi^2), S/C = sin/cos(w Q dt) "
+                          "(polynomial normal form of the source against the checker's reference table)")
+    chk.rule("R-NJ-REC", "the recurrence is x[i+1] = A x[i] + B (load[i], load[i+1]) for every step i = 0..n-2, with (A, B) = "
+                         "compute_a_and_b(xi, w, dt) and load = minus the record")
+    nj_rules(chk)
+    chk.floor("R-NJ-COEF", 8)
+    chk.floor("R-NJ-REC", 5)
     fi = P.fn(NJR)
     c = "%s:%s" % (fi.module.relpath, fi.name)
     chk.files.add(fi.module.relpath)
@@ -198,3 +206,203 @@ def run(chk):
 
 def _same_if(fi, sel):
     return sel
+
+
+# ---------------------------------------------------------------------------------------------------------------- closed forms
+# Reference: Nigam & Jennings (1968), Eq 2.7d / 2.7e, written over the role atoms
+#   E = exp(-xi*w*dt), Q = sqrt(1 - xi^2), S = sin(w*Q*dt), C = cos(w*Q*dt)
+# (trusted table of this checker; it was compared once, by hand, with the exact matrix-exponential solution).
+NJ_REF = {
+    ("a", 0, 0): "E*(xi/Q*S + C)",
+    ("a", 0, 1): "E/(w*Q)*S",
+    ("a", 1, 0): "-w/Q*E*S",
+    ("a", 1, 1): "E*(C - xi/Q*S)",
+    ("b", 0, 0): "E*(((2*xi**2 - 1)/(w**2*dt) + xi/w)*S/(w*Q) + (2*xi/(w**3*dt) + 1/w**2)*C) - 2*xi/(w**3*dt)",
+    ("b", 0, 1): "-E*((2*xi**2 - 1)/(w**2*dt)*S/(w*Q) + 2*xi/(w**3*dt)*C) - 1/w**2 + 2*xi/(w**3*dt)",
+    ("b", 1, 0): "E*(((2*xi**2 - 1)/(w**2*dt) + xi/w)*(C - xi/Q*S) - (2*xi/(w**3*dt) + 1/w**2)*(w*Q*S + xi*w*C)) + 1/(w**2*dt)",
+    ("b", 1, 1): "-E*((2*xi**2 - 1)/(w**2*dt)*(C - xi/Q*S) - 2*xi/(w**3*dt)*(w*Q*S + xi*w*C)) - 1/(w**2*dt)",
+}
+class NJNorm(Normaliser):
+    """Normal form over the role atoms: sqrt/exp/sin/cos/abs applications are interpreted by their (already normalised) argument.
+    exp(k*xi*w*dt) = E^-k exactly for rational k; sin/cos(+-w*Q*dt) = +-S / C; sqrt(1-xi^2) = Q; sqrt(1-S^2) = |C| (NOT C).
+    A transcendental of an argument that is not a rational multiple of the role's argument is algebraically independent of the
+    role atoms (recorded in .indep: comparison stays decisive); a non-trivial rational multiple admits multiple-angle identities
+    and is recorded in .unknown (comparison is inconclusive)."""
+    FN = {"np.sqrt": "sqrt", "math.sqrt": "sqrt", "numpy.sqrt": "sqrt", "np.exp": "exp", "math.exp": "exp", "numpy.exp": "exp",
+          "np.sin": "sin", "math.sin": "sin", "numpy.sin": "sin", "np.cos": "cos", "math.cos": "cos", "numpy.cos": "cos",
+          "np.abs": "abs", "abs": "abs", "np.absolute": "abs", "np.fabs": "abs"}
+
+    def __init__(self, **kw):
+        Normaliser.__init__(self, **kw)
+        self.indep, self.unknown = set(), set()
+        A = Poly.atom
+        self.zeta = A("xi") * A("w") * A("dt")
+        self.theta = A("w") * A("Q") * A("dt")
+
+    @staticmethod
+    def ratio(p, q):
+        if not p.t or set(p.t) != set(q.t):
+            return None
+        rs = {p.t[m] / q.t[m] for m in p.t}
+        return rs.pop() if len(rs) == 1 else None
+
+    def poly(self, e):
+        if isinstance(e, ast.Call) and len(e.args) == 1 and not e.keywords and ast.unparse(e.func) in self.FN:
+            return self.fn(self.FN[ast.unparse(e.func)], self.poly(e.args[0]))
+        if isinstance(e, ast.BinOp) and isinstance(e.op, ast.Pow) and isinstance(e.right, ast.Constant) and e.right.value == 0.5:
+            return self.fn("sqrt", self.poly(e.left))
+        return Normaliser.poly(self, e)
+
+    def fn(self, name, p):
+        A = Poly.atom
+        one = Poly.const(1)
+        if name == "sqrt":
+            if p == one - A("xi") * A("xi"):
+                return A("Q")
+            if p == one - A("S") * A("S"):
+                return A("|C|")
+            if p == one - A("C") * A("C"):
+                return A("|S|")
+        elif name == "abs":
+            if p == A("C"):
+                return A("|C|")
+            if p == A("S"):
+                return A("|S|")
+        elif name == "exp":
+            k = self.ratio(p, self.zeta)
+            if k is not None:
+                return A("E").power(-k)
+        elif name in ("sin", "cos"):
+            k = self.ratio(p, self.theta)
+            if k == 1:
+                return A("S") if name == "sin" else A("C")
+            if k == -1:
+                return -A("S") if name == "sin" else A("C")
+            if k is not None:
+                nm = "%s(%s)" % (name, p.canon())
+                self.unknown.add(nm)
+                return A(nm)
+        nm = "%s(%s)" % (name, p.canon())
+        if p.atoms() <= {"xi", "w", "dt", "Q"} and name in ("exp", "sin", "cos"):
+            self.indep.add(nm)
+        else:
+            self.unknown.add(nm)
+        return A(nm)
+
+
+def _expr(txt):
+    return ast.parse(txt, mode="eval").body
+
+
+def nj_rules(chk):
+    P = chk.P
+    fi = P.fn("eqsig.sdof.compute_a_and_b")
+    c = "eqsig/sdof.py:compute_a_and_b"
+    chk.files.add(fi.module.relpath)
+    if len(fi.params) != 3:
+        chk.ob("R-NJ-COEF", c, "parameters (xi, w, dt)", False, derived="%s" % (fi.params,), inconclusive=True, loc=fi.loc())
+        return
+    ren = dict(zip(fi.params, ("xi", "w", "dt")))
+    norm = straightline_env(fi.node.body, NJNorm(rename=ren), exclude=set(fi.params))
+    # the entries of the two returned matrices
+    rets = [n for n in ast.walk(fi.node) if isinstance(n, ast.Return) and isinstance(n.value, ast.Tuple) and len(n.value.elts) == 2]
+    if len(rets) != 1:
+        chk.ob("R-NJ-COEF", c, "one `return a, b`", False, derived="%d" % len(rets), inconclusive=True, loc=fi.loc())
+        return
+    mats = {}
+    for which, e in zip(("a", "b"), rets[0].value.elts):
+        src = e
+        if isinstance(e, ast.Name):
+            defs = [n for n in ast.walk(fi.node) if isinstance(n, ast.Assign) and isinstance(n.targets[0], ast.Name) and n.targets[0].id == e.id]
+            src = defs[-1].value if len(defs) == 1 else None
+        if isinstance(src, ast.Call) and ast.unparse(src.func) in ("np.array", "np.asarray", "numpy.array") and src.args:
+            src = src.args[0]
+        if isinstance(src, ast.List) and len(src.elts) == 2 and all(isinstance(r, ast.List) and len(r.elts) == 2 for r in src.elts):
+            mats[which] = [[x for x in r.elts] for r in src.elts]
+    if set(mats) != {"a", "b"}:
+        chk.ob("R-NJ-COEF", c, "both results are 2x2 matrices written out entry by entry", False, derived="recognised: %s" % sorted(mats),
+               inconclusive=True, loc=fi.loc())
+        return
+    refn = Normaliser()
+    known = {"xi", "w", "dt", "Q", "E", "S", "C", "|C|", "|S|"}
+    for (which, i, j), txt in sorted(NJ_REF.items()):
+        node = mats[which][i][j]
+        got = norm.poly(node)
+        want = refn.poly(_expr(txt))
+        foreign = sorted(a for a in got.atoms() - known if a not in norm.indep)
+        cc = c + "{%s[%d][%d]}" % (which, i, j)
+        if got == want:
+            chk.ob("R-NJ-COEF", cc, "entry equals the closed form " + txt, True, derived="equal as rational functions of xi, w, dt, Q, E, S, C",
+                   loc=fi.loc(node), nontrivial=True)
+        elif foreign:
+            chk.ob("R-NJ-COEF", cc, "entry equals the closed form " + txt, False, derived="built from terms this rule cannot interpret: %s" % foreign[:3],
+                   inconclusive=True, loc=fi.loc(node))
+        else:
+            diff = (got - want).canon()
+            odd = sorted(got.atoms() & (norm.indep | {"|C|", "|S|"}))
+            chk.ob("R-NJ-COEF", cc, "entry equals the closed form " + txt, False, derived="differs by %s" % diff[:200], loc=fi.loc(node),
+                   detail=("uses %s: |C| / |S| stand for sqrt(1 - S^2) / sqrt(1 - C^2), equal to the cosine / sine only while it is non-negative; "
+                           "a sine/cosine/exponential of another argument is a different function of (xi, w, dt)" % odd) if odd else None)
+    # ------------------------------------------------------------------------------------------------ the recurrence
+    fr_ = P.fn(NJR)
+    c2 = "eqsig/sdof.py:nigam_and_jennings_response"
+    rec, dtp, per, xi = fr_.params[:4]
+    rets = [n for n in ast.walk(fr_.node) if isinstance(n, ast.Return) and isinstance(n.value, ast.Tuple) and len(n.value.elts) == 3
+            and all(isinstance(e, ast.Name) for e in n.value.elts)]
+    if len(rets) != 1:
+        return
+    U, V, A = [e.id for e in rets[0].value.elts]
+    # (a, b) = compute_a_and_b(xi, w, dt)
+    unpack = [n for n in ast.walk(fr_.node) if isinstance(n, ast.Assign) and isinstance(n.targets[0], ast.Tuple) and isinstance(n.value, ast.Call)
+              and ast.unparse(n.value.func).split(".")[-1] == "compute_a_and_b"]
+    if len(unpack) != 1 or len(unpack[0].targets[0].elts) != 2:
+        chk.ob("R-NJ-REC", c2 + "{matrices}", "one `a, b = compute_a_and_b(xi, w, dt)`", False, derived="%d" % len(unpack), inconclusive=True, loc=fr_.loc())
+        return
+    an, bn = [e.id for e in unpack[0].targets[0].elts]
+    call = unpack[0].value
+    env0 = straightline_env(fr_.node.body, Normaliser(), exclude={U, V, A, an, bn})
+    argtxt = [ast.unparse(a) for a in call.args]
+    # by role: first argument derives from xi, third from dt, second is the angular frequency c/periods
+    wdef = [n for n in fr_.node.body if isinstance(n, ast.Assign) and isinstance(n.targets[0], ast.Name) and len(call.args) == 3 and
+            n.targets[0].id == argtxt[1]]
+    ok_args = len(call.args) == 3 and not call.keywords and argtxt[0] == xi and argtxt[2] == dtp and len(wdef) == 1 and \
+        per in ast.unparse(wdef[0].value)
+    chk.ob("R-NJ-REC", c2 + "{matrices}", "a, b = compute_a_and_b(xi, w, dt) with w the angular frequencies", ok_args,
+           derived="compute_a_and_b(%s)" % ", ".join(argtxt), loc=fr_.loc(unpack[0]), stmt=norm_stmt(unpack[0]))
+    # the load is minus the record (the library's sign convention: u'' + 2 xi w u' + w^2 u = +a with the published B)
+    loads = [n for n in fr_.node.body if isinstance(n, ast.Assign) and isinstance(n.targets[0], ast.Name) and n.targets[0].id == rec]
+    lp = Normaliser().poly(loads[0].value) if len(loads) == 1 else None
+    chk.ob("R-NJ-REC", c2 + "{load}", "the load series is minus the record (once)", lp is not None and lp == -Poly.atom(rec),
+           derived="load = %s" % (lp.canon() if lp is not None else "%d rebinding(s) of the record" % len(loads)),
+           loc=fr_.loc(loads[0]) if loads else fr_.loc())
+    loops = [n for n in fr_.node.body if isinstance(n, ast.For)]
+    stores = []
+    for lp_ in loops:
+        for stn in lp_.body:
+            if isinstance(stn, ast.Assign) and isinstance(stn.targets[0], ast.Subscript) and isinstance(stn.targets[0].value, ast.Name) and \
+                    stn.targets[0].value.id in (U, V):
+                stores.append((lp_, stn))
+    if len(loops) != 1 or len(stores) != 2 or not isinstance(loops[0].target, ast.Name):
+        chk.ob("R-NJ-REC", c2 + "{recurrence}", "one loop with one store per state series", False, derived="%d loop(s), %d store(s)" % (len(loops), len(stores)),
+               inconclusive=True, loc=fr_.loc())
+        return
+    lp_ = loops[0]
+    iv = lp_.target.id
+    rng = [Normaliser().poly(a).canon() for a in lp_.iter.args] if isinstance(lp_.iter, ast.Call) and ast.unparse(lp_.iter.func) == "range" else None
+    want_rng = [Normaliser().poly(_expr("len(%s) - 1" % rec)).canon()]
+    chk.ob("R-NJ-REC", c2 + "{steps}", "the loop takes every step: range(len(record) - 1)", rng == want_rng, derived="range(%s)" % (rng,), loc=fr_.loc(lp_))
+    for lp_, stn in stores:
+        tgt = stn.targets[0]
+        which = 0 if tgt.value.id == U else 1
+        comps = tgt.slice.elts if isinstance(tgt.slice, ast.Tuple) else [tgt.slice]
+        rowtxt = ast.unparse(comps[0]) if comps else "?"
+        col = Normaliser().poly(comps[1]).canon() if len(comps) == 2 else None
+        okcol = col == Normaliser().poly(_expr("%s + 1" % iv)).canon()
+        nrm = Normaliser()
+        got = nrm.poly(stn.value)
+        reft = "{a}[{k}][0]*{U}[{r}, {i}] + {a}[{k}][1]*{V}[{r}, {i}] + {b}[{k}][0]*{f}[{i}] + {b}[{k}][1]*{f}[{i} + 1]".format(
+            a=an, b=bn, U=U, V=V, f=rec, r=rowtxt, i=iv, k=which)
+        want = Normaliser().poly(_expr(reft))
+        chk.ob("R-NJ-REC", c2 + "{recurrence %s}" % ("u" if which == 0 else "v"),
+               "x[i+1] = A[k] . (u[i], v[i]) + B[k] . (load[i], load[i+1]), k = %d, stored at column i + 1" % which, got == want and okcol,
+               derived="%s -> column %s" % (got.canon(), col), loc=fr_.loc(stn), stmt=norm_stmt(stn))
